@@ -49,7 +49,7 @@ func testdataDir() string {
 
 var c15Keys = func() []c15Key {
 	var out []c15Key
-	for _, n := range []string{"ecdsa1", "ecdsa2", "rsa1", "ecdsa3_issued_by_rsa", "rsa2_issued_by_ecdsa", "ecdsa4_selfsigned_sha384"} {
+	for _, n := range []string{"ecdsa1", "ecdsa2", "rsa1", "ecdsa3_issued_by_rsa", "rsa2_issued_by_ecdsa", "ecdsa4_selfsigned_sha384", "ecdsa5_one_year", "rsa3_one_year"} {
 		cp, err := os.ReadFile(filepath.Join(testdataDir(), "c15", n+".cert.pem"))
 		if err != nil {
 			// resolved lazily in the test (so that unrelated tests do not depend on the files)
@@ -151,7 +151,7 @@ func TestC15(t *testing.T) {
 		modelSigs := map[string]c15Stored{} // storage key -> last stored signature object
 		var hist []string
 		note := func(f string, a ...interface{}) { hist = append(hist, fmt.Sprintf(f, a...)) }
-		validVerified, mutationsChecked, republish, storedAtLinkKey, linkAtStorageKey := 0, 0, 0, 0, 0
+		validVerified, mutationsChecked, republish, storedAtLinkKey, linkAtStorageKey, timePassed := 0, 0, 0, 0, 0, 0
 
 		checkLinks := func(what string) {
 			for key, want := range modelLinks {
@@ -274,6 +274,12 @@ func TestC15(t *testing.T) {
 				}
 				checkLinks("after store")
 			},
+			"time_passes": func(t *rapid.T) {
+				// blocks go by (a day, a month, a year, five years): what a stored record says does not change with time
+				v.Advance([]int64{dayNs, 30 * dayNs, yearNs, 5 * yearNs}[rapid.IntRange(0, 3).Draw(t, "dt")])
+				timePassed++
+				note("time passes, now %s", nsTime(v.NowNs))
+			},
 			"verify": func(t *rapid.T) {
 				addr := addrs[rapid.IntRange(0, len(addrs)-1).Draw(t, "addr")]
 				ref := refIDs[rapid.IntRange(0, len(refIDs)-1).Draw(t, "ref")]
@@ -310,6 +316,9 @@ func TestC15(t *testing.T) {
 		var cl []string
 		if validVerified > 0 {
 			cl = append(cl, "valid_record_verified")
+		}
+		if timePassed > 0 {
+			cl = append(cl, "time_passed_between_store_and_verify")
 		}
 		if storedAtLinkKey > 0 || linkAtStorageKey > 0 {
 			cl = append(cl, "link_and_signature_keys_coincide")
